@@ -119,6 +119,18 @@ def ledFlow (s : LedState) (w : World) (ws : List String) (head : String) : LedS
           (s3.bindNew dst, addD d1 d2)
         else s.dropSlot a
     | _, _ => (s, (0, 0))
+  | ["poke", r, i, j, _] =>
+    -- `*m.get_mut((i, j))? = element` (`History.Op.setAt`): on `Ok` the old element is dropped and
+    -- the new one takes its place (ledger class `setElem` at the offset the checked index resolved
+    -- to); on `IndexOutOfBounds` nothing is created or dropped by the matrix
+    if ok then
+      match s.idx r.toNat!, w.get r.toNat! with
+      | some li, some m =>
+        match m.getIdx i.toNat! j.toNat! with
+        | .ok (.ok k) => s.apply (.setElem li k)
+        | _ => (s, (0, 0))
+      | _, _ => (s, (0, 0))
+    else (s, (0, 0))
   | ["iter", r, variant, _] =>
     if variant.startsWith "into" then
       match s.idx r.toNat! with
